@@ -148,10 +148,14 @@ def eval_history(desc, grid, M, lim):
     n = desc["n"]
     i0, i1, j0, j1 = lim
     xs, ys = [], []
-    while len(xs) < n:
+    for _try in range(200 * n):
+        if len(xs) >= n:
+            break
         x = rng.uniform(i0 + 0.51, i1 - 1.51); y = rng.uniform(j0 + 0.51, j1 - 1.51)
         if M[round(y), round(x)] == 1:
             xs.append(x); ys.append(y)
+    if not xs:  # no sea cell in the valid region of this subgrid: nothing to release
+        return {"ints": None, "oracle": None, "nontrivial": None, "kind": "history-all-land", "observed": {}}
     speed = desc["speed"]
     cx, cy = (i0 + i1) / 2, (j0 + j1) / 2
 
